@@ -804,6 +804,7 @@ def _page_array(page):
     """decode one IFD -> (S, H, W)."""
     a = page.asarray()
     spp = int(page.samplesperpixel)
+    require(a.size == spp * page.imagelength * page.imagewidth, "IFD decodes to %d values, tags say %d x %d x %d", a.size, spp, page.imagelength, page.imagewidth)
     if spp == 1:
         a = a.reshape(1, page.imagelength, page.imagewidth)
     elif int(page.planarconfig) == 1:
@@ -1001,6 +1002,23 @@ def layout_checks(w, case):
                 require(got.shape == want.shape and bool(_eq(got, want).all()), "IFD 0 tile %d (plane %d, row %d, col %d): bytes [%d,%d) decode to other pixels than that tile's", i, s, ty, tx, o, o + c)
 
 
+_READER_LIBS = tuple(os.sep + name + os.sep for name in ("rasterio", "tifffile", "imagecodecs"))
+
+
+def _guarded(body, *args):
+    """Run an oracle body; an exception raised *inside a reader library* (GDAL/tifffile/imagecodecs cannot parse or
+    decode the file) is a violation of 'independent TIFF readers decode ...', anything else stays a harness error."""
+    try:
+        return body(*args)
+    except Violation:
+        raise
+    except Exception as e:  # noqa: BLE001
+        frames = traceback.extract_tb(e.__traceback__)
+        if any(lib in f.filename for f in frames for lib in _READER_LIBS):
+            raise Violation("%s: reader failed on the file: %s: %s" % (body.__name__, type(e).__name__, str(e)[:300])) from e
+        raise
+
+
 def _mk_oracle(*bodies):
     def oracle(case, T):
         w = write_case(case, T)
@@ -1009,7 +1027,7 @@ def _mk_oracle(*bodies):
         try:
             classify(case, T)
             for body in bodies:
-                body(w, case)
+                _guarded(body, w, case)
         finally:
             w.close()
 
